@@ -66,7 +66,14 @@ def json_schema(
     required = []
     _param2json_schema_property = partial(param2json_schema_property, required=required)
     properties = dict(
-        map(_param2json_schema_property, intermediate_repr["params"].items())
+        map(
+            _param2json_schema_property,
+            # copies: `param2json_schema_property` rewrites the mapping it is given into a schema property
+            map(
+                lambda name_param: (name_param[0], dict(name_param[1])),
+                intermediate_repr["params"].items(),
+            ),
+        )
     )
 
     schema = {
